@@ -19,6 +19,7 @@ def run_scenario(loop_name, scn, max_waits=400):
 
     na, nf, ni = len(scn["alarms"]), len(scn["watches"]), len(scn["idles"])
     env = loops.Env({f + 1: w["at"] for f, w in enumerate(scn["watches"]) if w["at"] < 9000}, max_waits=max_waits)
+    env.fd0 = bool(scn.get("fd0"))      # present watched descriptor 1 as file descriptor 0 (where the loop's double allows it)
     ad = loops.ADAPTERS[loop_name](env)
     state = {"nextid": na + 2, "nextidle": ni + 1, "alarm_h": {}, "watch_h": {}, "idle_h": {}}
     outcome = {"t": "run_end", "outcome": "return", "exc": ""}
@@ -40,6 +41,10 @@ def run_scenario(loop_name, scn, max_waits=400):
                     i = state["nextidle"]
                     state["nextidle"] += 1
                     reg_idle(i, "noop")
+            elif beh.startswith("removeAlarm:"):      # remove one particular alarm (directed scenarios)
+                tgt = int(beh.split(":")[1])
+                ret = loop.remove_alarm(state["alarm_h"][tgt])
+                env.log(t="remove_alarm", id=tgt, ret=bool(ret))
             elif beh in ("removeAlarm", "removeAlarmTwice"):
                 tgt = (me % na) + 1 if kind == "alarm" else 1
                 for _ in range(2 if beh == "removeAlarmTwice" else 1):
@@ -98,7 +103,7 @@ def run_scenario(loop_name, scn, max_waits=400):
 
         for i, a in enumerate(scn["alarms"], 1):
             reg_alarm(i, a["delay"], a["beh"])
-        reg_alarm(na + 1, EXIT_DELAY_MS, "exit")
+        reg_alarm(na + 1, scn.get("exit_ms", EXIT_DELAY_MS), "exit")
         for f, w in enumerate(scn["watches"], 1):
             reg_watch(f, w["beh"])
         for i, b in enumerate(scn["idles"], 1):
@@ -113,6 +118,21 @@ def run_scenario(loop_name, scn, max_waits=400):
         except BaseException as ex:  # noqa: BLE001
             outcome["outcome"] = "raise"
             outcome["exc"] = type(ex).__name__
+            if scn.get("rerun") and isinstance(ex, loops.VfError) and loop_name in ("select", "asyncio", "zmq", "tornado"):
+                # the same loop object is run again: the error of the first run must not come back
+                env.log(t="run_end", outcome="raise", exc="VfError")
+                env.log(t="rerun")
+                reg_alarm(state["nextid"] if state["nextid"] <= MAXA else MAXA, 10, "exit")
+                outcome = {"t": "run_end", "outcome": "return", "exc": ""}
+                try:
+                    with contextlib.redirect_stdout(io.StringIO()):
+                        loop.run()
+                except loops.Stuck:
+                    outcome["outcome"] = "stuck"
+                except BaseException as ex2:  # noqa: BLE001
+                    outcome["outcome"] = "raise"
+                    outcome["exc"] = type(ex2).__name__
+                ex = None
             if isinstance(ex, BaseExceptionGroup):
                 leaves = []
 
@@ -134,7 +154,7 @@ def scn_from_state(st):
     sc = st["scn"]
     return {"alarms": [{"delay": a["delay"], "beh": a["beh"]} for a in sc["alarms"]],
             "watches": [{"at": w["at"], "beh": w["beh"]} for w in sc["watches"]],
-            "idles": list(sc["idles"])}
+            "idles": list(sc["idles"]), "fd0": (len(sc["alarms"]) + len(sc["watches"])) % 2 == 0}
 
 
 ABEH = ["noop", "addAlarm", "addIdle", "removeAlarm", "removeAlarmTwice", "removeWatch", "removeIdle", "slow", "exit", "error"]
@@ -146,7 +166,21 @@ def random_scn(rng):
     na, nf, ni = rng.randint(1, 5), rng.randint(0, 3), rng.choice([0, 0, 1, 2, 3])
     return {"alarms": [{"delay": rng.choice([0, 0, 10, 10, 20, 30, 50]), "beh": rng.choice(ABEH + ["noop", "slow"])} for _ in range(na)],
             "watches": [{"at": rng.choice([9999, 0, 0, 10, 15, 25]), "beh": rng.choice(WBEH + ["noop", "exit"])} for _ in range(nf)],
-            "idles": [rng.choice(IBEH + ["noop", "noop", "exit", "slow"]) for _ in range(ni)]}
+            "idles": [rng.choice(IBEH + ["noop", "noop", "exit", "slow"]) for _ in range(ni)], "fd0": rng.random() < 0.5,
+            "rerun": rng.random() < 0.4}
+
+
+def heap_scns(rng, n):
+    """Alarm heaps: six alarms with distinct due times in a random registration order plus the run-ending alarm due in the MIDDLE
+    of them (seven entries), and a descriptor readable at once whose callback removes one particular alarm while all are pending:
+    a loop that keeps its own alarm heap has to keep it a heap, one that delegates has to cancel the right timer."""
+    out = []
+    for _ in range(n):
+        delays = rng.sample(range(10, 100, 10), 6)
+        tgt = rng.randint(1, 6)
+        out.append({"alarms": [{"delay": d, "beh": "noop"} for d in delays], "watches": [{"at": 0, "beh": f"removeAlarm:{tgt}"}], "idles": [],
+                    "fd0": False, "rerun": False, "exit_ms": rng.choice([35, 35, 55])})
+    return out
 
 
 def _q(xs):
@@ -224,6 +258,12 @@ def run(chk, loops_to_run=None):
     for sc in scns:
         for name in names:
             traces.append(run_scenario(name, sc))
+    hs = heap_scns(rng, 100 if quick else 1500)
+    for k, sc in enumerate(hs):
+        for name in names:
+            if name in ("select", "zmq") or k % 10 == 0:      # these two keep their own heap; the others delegate to their library's timers
+                traces.append(run_scenario(name, sc))
+    chk.cov["heap_scenarios"] = len(hs)
     res = tlc.validate("EventLoopTrace", traces, batch_events=20000, timeout=1500)
     chk.add_tv("TV_EventLoopTrace", res)
     _handle(chk, traces, res, "c13")
